@@ -83,3 +83,26 @@ func VerifCloseCode(out []byte) (code int, n int) {
 	}
 	return code, nClose
 }
+
+// VerifCutConn is VerifScriptedConn with the stream cut after cut bytes (cut < 0: whole stream); the transport then ends
+// with EOF / ErrUnexpectedEOF / a foreign error (endMode 0/1/2). It returns the Conn and the length of the whole stream.
+func VerifCutConn(client bool, msgs []VerifMsg, step, cut, endMode int) (*Conn, int) {
+	vInstallRand()
+	var frames []vFrame
+	for _, m := range msgs {
+		op := uint8(2)
+		if m.Text {
+			op = 1
+		}
+		frames = append(frames, vDataFrames(m.Payload, m.Cuts, op, false, client)...)
+	}
+	wire := vEncodeFrames(frames)
+	total := len(wire)
+	if cut >= 0 && cut < total {
+		wire = wire[:cut]
+	}
+	t := vNewTransport(wire)
+	t.endMode = endMode
+	t.step = step
+	return vNewConn(t, client, nil, 32, 256), total
+}
